@@ -730,7 +730,8 @@ def _extract_stars(data, catalog, *, size=(11, 11), use_xy=True):
     if data.uncertainty is None:
         weights = np.ones_like(data.data)
     elif data.uncertainty.uncertainty_type == 'weights':
-        weights = np.asanyarray(data.uncertainty.array, dtype=float)
+        # copy to avoid modifying the input NDData uncertainty array
+        weights = np.array(data.uncertainty.array, dtype=float)
     else:
         # other uncertainties are converted to the inverse standard
         # deviation as the weight; ignore divide-by-zero RuntimeWarning
